@@ -2,72 +2,23 @@
    Machine: Model/TxReaders.v (database.WithTxReadClosers + readCloserWithCloseHook + TxController.Rollback).
    [final fixed n ops] is the state after the caller applied [ops] (any order of Read i / Close i, repeated
    closes included) to the n readers it was handed; since the statements quantify over ALL op lists, they
-   speak about every intermediate point of every history.  [fixed = false] is the code as it is,
-   [fixed = true] the code after fixes/C36-close-once.patch. *)
+   speak about every intermediate point of every history.  [fixed = true] is the current code (close hook
+   once per reader, /repo 057e4df), [fixed = false] the code before that fix (historical Examples below). *)
 From Verif Require Import Bytes Codec TxReaders TxReadersProofs.
 
 (* The property: the transaction is released when, and only when, every reader has been closed; it is
    released exactly once; a reader that has not been closed never fails (whatever happened to the
-   others); Close never reports an error. *)
-Definition C36_full (fixed : bool) : Prop :=
-  forall n ops, 0 < n -> (forall op, In op ops -> op_index op < n) ->
-  let s := final fixed n ops in
+   others, repeated closes included); Close never reports an error.
+   Proved of the model of the CURRENT code ([fixed = true]: since /repo 057e4df the close hook of each
+   reader decrements the counter at most once). *)
+Theorem C36_full : forall n ops, 0 < n -> (forall op, In op ops -> op_index op < n) ->
+  let s := final true n ops in
   (tx_done s = true <-> forall i, i < n -> In (Close i) ops) /\
   rb_hooks s = (if tx_done s then 1 else 0) /\ rb_calls s <= 1 /\
-  (forall i, i < n -> ~ In (Close i) ops -> snd (step fixed s (Read i)) = ROk) /\
-  (forall i, i < n -> snd (step fixed s (Close i)) = ROk).
-
-(* the code as it is violates it: two readers, reader 0 closed twice — the transaction is gone while
-   reader 1 is open and reader 1's next Read fails with sql.ErrTxDone *)
-Theorem C36_full_refuted : ~ C36_full false.
-Proof. exact full_refuted_stmt. Qed.
-Print Assumptions C36_full_refuted.
-
-Theorem C36_full_refuted_witness :
-  let s := final false 2 [Close 0; Close 0] in
-  tx_done s = true /\ rb_hooks s = 1 /\ ~ In (Close 1) [Close 0; Close 0] /\
-  snd (step false s (Read 1)) = RTxDone /\
-  results false 2 [Close 0; Close 0; Read 1] = [ROk; ROk; RTxDone].
-Proof. exact full_refuted_witness_stmt. Qed.
-Print Assumptions C36_full_refuted_witness.
-
-(* what the code does for EVERY history: the n-th Close — of whichever readers — releases the
-   transaction; it is never released twice; a not-yet-closed reader fails exactly from then on *)
-Theorem C36_release_at_nth_close : forall n ops, 0 < n -> (forall op, In op ops -> op_index op < n) ->
-  let s := final false n ops in
-  (tx_done s = true <-> n <= n_closes ops) /\
-  rb_hooks s = (if tx_done s then 1 else 0) /\ rb_calls s <= 1 /\
-  ((forall i, i < n -> In (Close i) ops) -> tx_done s = true) /\
-  (forall i, i < n -> snd (step false s (Read i)) =
-       if in_dec Nat.eq_dec i (close_indices ops) then REof
-       else if n <=? n_closes ops then RTxDone else ROk) /\
-  (forall i, snd (step false s (Close i)) = ROk).
-Proof. exact release_at_nth_close_stmt. Qed.
-Print Assumptions C36_release_at_nth_close.
-
-(* the property holds on every history in which no reader is closed twice *)
-Theorem C36_partial : forall n ops, 0 < n -> (forall op, In op ops -> op_index op < n) ->
-  NoDup (close_indices ops) ->
-  let s := final false n ops in
-  (tx_done s = true <-> forall i, i < n -> In (Close i) ops) /\
-  rb_hooks s = (if tx_done s then 1 else 0) /\ rb_calls s <= 1 /\
-  (forall i, i < n -> ~ In (Close i) ops -> snd (step false s (Read i)) = ROk) /\
-  (forall i, i < n -> snd (step false s (Close i)) = ROk).
-Proof. exact partial_stmt. Qed.
-Print Assumptions C36_partial.
-
-(* conversely: an early release always has a repeated Close of one reader behind it *)
-Theorem C36_early_release_needs_double_close : forall n ops i,
-  0 < n -> (forall op, In op ops -> op_index op < n) ->
-  tx_done (final false n ops) = true -> i < n -> ~ In (Close i) ops ->
-  ~ NoDup (close_indices ops).
-Proof. exact early_release_needs_double_close_stmt. Qed.
-Print Assumptions C36_early_release_needs_double_close.
-
-(* with the close hook made idempotent per reader the property holds for every history *)
-Theorem C36_fixed_full : C36_full true.
+  (forall i, i < n -> ~ In (Close i) ops -> snd (step true s (Read i)) = ROk) /\
+  (forall i, i < n -> snd (step true s (Close i)) = ROk).
 Proof. exact fixed_full_stmt. Qed.
-Print Assumptions C36_fixed_full.
+Print Assumptions C36_full.
 
 (* both variants: the inner reader is closed once per Close of its wrapper, nobody else's *)
 Theorem C36_inner_close_counts : forall fixed n ops i, (forall op, In op ops -> op_index op < n) -> i < n ->
@@ -94,14 +45,36 @@ Theorem C36_no_readers : forall n,
 Proof. exact no_readers_stmt. Qed.
 Print Assumptions C36_no_readers.
 
+(* ---- HISTORICAL: the machine before /repo 057e4df ([fixed = false]: the hook ran on every Close).
+   Kept as Examples so that the old defect stays documented and machine-checked; they say nothing about
+   the current code. ---- *)
+Example C36_prefix_full_refuted :   (* the property failed: n = 2, reader 0 closed twice *)
+  ~ (forall n ops, 0 < n -> (forall op, In op ops -> op_index op < n) ->
+     let s := final false n ops in
+     (tx_done s = true <-> forall i, i < n -> In (Close i) ops) /\
+     rb_hooks s = (if tx_done s then 1 else 0) /\ rb_calls s <= 1 /\
+     (forall i, i < n -> ~ In (Close i) ops -> snd (step false s (Read i)) = ROk) /\
+     (forall i, i < n -> snd (step false s (Close i)) = ROk)).
+Proof. exact full_refuted_stmt. Qed.
+Example C36_prefix_witness :
+  let s := final false 2 [Close 0; Close 0] in
+  tx_done s = true /\ rb_hooks s = 1 /\ ~ In (Close 1) [Close 0; Close 0] /\
+  snd (step false s (Read 1)) = RTxDone /\
+  results false 2 [Close 0; Close 0; Read 1] = [ROk; ROk; RTxDone].
+Proof. exact full_refuted_witness_stmt. Qed.
+Example C36_prefix_release_at_nth_close :   (* what the old code did: the n-th Close of whichever readers released *)
+  forall n ops, 0 < n -> (forall op, In op ops -> op_index op < n) ->
+  tx_done (final false n ops) = true <-> n <= n_closes ops.
+Proof. intros n ops Hn Hv. exact (proj1 (release_at_nth_close_stmt n ops Hn Hv)). Qed.
+
 (* non-vacuity *)
 Example C36_ex_ok : (* three readers, interleaved reads, closed once each in a scrambled order *)
-  results false 3 [Read 0; Close 2; Read 1; Read 2; Close 0; Read 1; Close 1; Read 1]
+  results true 3 [Read 0; Close 2; Read 1; Read 2; Close 0; Read 1; Close 1; Read 1]
     = [ROk; ROk; ROk; REof; ROk; ROk; ROk; REof]
-  /\ tx_done (final false 3 [Read 0; Close 2; Read 1; Read 2; Close 0; Read 1]) = false
-  /\ tx_done (final false 3 [Read 0; Close 2; Read 1; Read 2; Close 0; Read 1; Close 1]) = true.
+  /\ tx_done (final true 3 [Read 0; Close 2; Read 1; Read 2; Close 0; Read 1]) = false
+  /\ tx_done (final true 3 [Read 0; Close 2; Read 1; Read 2; Close 0; Read 1; Close 1]) = true.
 Proof. repeat split. Qed.
-Example C36_ex_fixed : (* the refuting history on the repaired machine *)
+Example C36_ex_repeated_close : (* the history that broke the old code *)
   results true 2 [Close 0; Close 0; Read 1; Close 1] = [ROk; ROk; ROk; ROk]
   /\ tx_done (final true 2 [Close 0; Close 0; Read 1]) = false
   /\ rb_hooks (final true 2 [Close 0; Close 0; Read 1; Close 1; Close 1; Close 0]) = 1.
